@@ -89,7 +89,7 @@ fn plan(seeds: &[u16]) -> Plan {
         prefix.push((i, format!("NICK n{}", i)));
         prefix.push((i, format!("USER u{} 0 * :Real n{}", i, i)));
     }
-    let kind_i = s.pick(12);
+    let kind_i = s.pick(14);
     let mut per_conn: Vec<(usize, Vec<String>)> = vec![];
     let mut contested_nick = None;
     let mut new_channel = None;
@@ -205,6 +205,34 @@ fn plan(seeds: &[u16]) -> Plan {
             }
             "topic-vs-kick"
         }
+        13 => {
+            // readers that list +i users while writers queue for the lock
+            prefix.push((0, "MODE n0 +i".into()));
+            prefix.push((1, "MODE n1 +i".into()));
+            prefix.push((0, "JOIN #w".into()));
+            prefix.push((1, "JOIN #w".into()));
+            per_conn.push((0, vec!["WHO #w".into(), "WHO *".into(), "WHOIS n1".into()]));
+            per_conn.push((1, vec!["AWAY :brb".into(), "AWAY".into()]));
+            per_conn.push((2, vec!["JOIN #w".into(), "WHO n*".into()]));
+            per_conn.push((3, vec!["NICK n3b".into()]));
+            "readers-vs-writers"
+        }
+        11 | 12 => {
+            // one message to several channels vs one JOIN / PART of the same list: the joiner must
+            // get each message on all of the channels or on none of them
+            prefix.push((0, "JOIN #a1,#a2,#a3,#a4".into()));
+            if s.chance(50) {
+                prefix.push((1, "JOIN #a1,#a2,#a3,#a4".into()));
+                per_conn.push((1, vec!["PART #a1,#a2,#a3,#a4".into()]));
+            } else {
+                per_conn.push((1, vec!["JOIN #a1,#a2,#a3,#a4".into()]));
+            }
+            per_conn.push((0, vec!["PRIVMSG #a1,#a2,#a3,#a4 :to all four (1)".into(), "PRIVMSG #a4,#a3,#a2,#a1 :to all four (2)".into()]));
+            if s.chance(40) {
+                per_conn.push((2, vec!["WHO #a1".into(), "WHO *".into()]));
+            }
+            "multi-target-vs-join"
+        }
         _ => {
             prefix.push((0, "JOIN #v".into()));
             prefix.push((0, "MODE #v +i".into()));
@@ -267,6 +295,53 @@ struct Outcome {
     relays: BTreeMap<(String, usize), Vec<String>>,
     digest: BTreeMap<usize, Vec<NL>>,
     eof: BTreeSet<usize>,
+}
+
+// The server walks hash sets for "every target of one command" and "every user": the order of
+// the copies of ONE message to several targets, and of the rows of one WHO listing, is not part
+// of the outcome.  Sort each maximal run of such sibling lines.
+fn sibling_key(line: &str) -> Option<String> {
+    // numerics are in the `light` form "<source> <code> <params...>"
+    let mut t = line.split(' ');
+    if let (Some(_), Some("352"), Some(mask)) = (t.next(), t.next(), t.next()) {
+        return Some(format!("352 {}", mask));
+    }
+    let m = refparse::parse(line).ok()?;
+    match m.command.as_str() {
+        "352" => Some(format!("352 {}", m.params.first().cloned().unwrap_or_default())),
+        "PRIVMSG" | "NOTICE" => Some(format!(
+            "{} {} {}",
+            m.source.clone().unwrap_or_default(),
+            m.command,
+            m.params.last().cloned().unwrap_or_default()
+        )),
+        _ => None,
+    }
+}
+
+fn canon_runs(v: &mut Vec<String>) {
+    let mut i = 0;
+    while i < v.len() {
+        let k = sibling_key(&v[i]);
+        let mut j = i + 1;
+        if k.is_some() {
+            while j < v.len() && sibling_key(&v[j]) == k {
+                j += 1;
+            }
+            v[i..j].sort();
+        }
+        i = j;
+    }
+}
+
+fn canon_outcome(mut o: Outcome) -> Outcome {
+    for v in o.replies.values_mut() {
+        canon_runs(v);
+    }
+    for v in o.relays.values_mut() {
+        canon_runs(v);
+    }
+    o
 }
 
 struct RunInfo {
@@ -392,7 +467,7 @@ fn execute(p: &Plan, order: &[(usize, String)], concurrent: bool, seed: u64) -> 
             w.settle();
             all.extend(w.drain(c));
         }
-        for extra in ["#new", "#lim", "#m", "#k", "#q", "#e", "#v"] {
+        for extra in ["#new", "#lim", "#m", "#k", "#q", "#e", "#v", "#w", "#a1", "#a4"] {
             w.send_line(c, &format!("MODE {}", extra));
             w.send_line(c, &format!("TOPIC {}", extra));
             w.settle();
@@ -406,7 +481,7 @@ fn execute(p: &Plan, order: &[(usize, String)], concurrent: bool, seed: u64) -> 
         }
     }
     let _ = crate::sim::take_panics();
-    Ok(RunInfo { outcome: Outcome { replies, relays, digest, eof }, log, yields_taken, raw })
+    Ok(RunInfo { outcome: canon_outcome(Outcome { replies, relays, digest, eof }), log, yields_taken, raw })
 }
 
 fn interleavings(per_conn: &BTreeMap<usize, Vec<String>>, cap: usize) -> Vec<Vec<(usize, String)>> {
@@ -884,6 +959,23 @@ fn execute_mt(p: &Plan, workers: usize) -> Result<Option<RunInfo>, Viol> {
         let tok = format!(":end{}", c);
         let ok = w.read_until(*c, WAIT, &move |ls: &[String]| ls[m.min(ls.len())..].iter().any(|l| (l.contains(" PONG ") && l.ends_with(&tok)) || l.contains(" 451 ")));
         if !ok && !w.conns[*c].eof {
+            // slow or stalled?  If the runtime is completely idle the answer can never come
+            // (idle twice, a further patient wait without the answer, and idle again)
+            let tok2 = format!(":end{}", c);
+            if w.quiescent()
+                && w.quiescent()
+                && !w.read_until(*c, Duration::from_secs(8), &move |ls: &[String]| ls[m.min(ls.len())..].iter().any(|l| (l.contains(" PONG ") && l.ends_with(&tok2)) || l.contains(" 451 ")))
+                && !w.conns[*c].eof
+                && w.quiescent()
+            {
+                log.push(format!("c{} never got the answer to its final PING and the server runtime is idle (all workers parked)", c));
+                return Err(Viol::new(
+                    "C18.liveness",
+                    format!("stalled:mt:{}", p.kind),
+                    format!("after the parallel burst `{}` the server stopped answering c{} although it is idle: a deadlock", p.burst.iter().map(|(c, l)| format!("c{}:{}", c, l)).collect::<Vec<_>>().join(" | "), c),
+                )
+                .with_transcript(log.clone()));
+            }
             return Ok(None);
         }
     }
@@ -958,7 +1050,7 @@ fn execute_mt(p: &Plan, workers: usize) -> Result<Option<RunInfo>, Viol> {
         let from = w.conns[c].lines.len();
         let mut k = 0;
         let mut qs: Vec<String> = DIGEST_QUERIES.iter().map(|s| s.to_string()).collect();
-        for extra in ["#new", "#lim", "#m", "#k", "#q", "#e", "#v"] {
+        for extra in ["#new", "#lim", "#m", "#k", "#q", "#e", "#v", "#w", "#a1", "#a4"] {
             qs.push(format!("MODE {}", extra));
             qs.push(format!("TOPIC {}", extra));
         }
@@ -991,7 +1083,7 @@ fn execute_mt(p: &Plan, workers: usize) -> Result<Option<RunInfo>, Viol> {
             digest.insert(c, items);
         }
     }
-    Ok(Some(RunInfo { outcome: Outcome { replies, relays, digest, eof }, log, yields_taken: 0, raw }))
+    Ok(Some(RunInfo { outcome: canon_outcome(Outcome { replies, relays, digest, eof }), log, yields_taken: 0, raw }))
 }
 
 pub fn check_burst_mt(c: &BurstCase, st: &mut Stats) -> Result<(), Viol> {
